@@ -9,6 +9,11 @@ from openpyxl.worksheet.formula import ArrayFormula
 from openpyxl.workbook.defined_name import DefinedName
 
 B1, B2 = 'book1.xlsx', 'book2.xlsx'
+ODD = "O'B %"                      # a sheet title with an apostrophe and a percent sign
+
+
+def q(title):
+    return title.replace("'", "''")
 
 
 def spec(a1, a2, whole='row', cross=True):
@@ -39,6 +44,7 @@ def spec(a1, a2, whole='row', cross=True):
         'A6': '=@A5&{DATA}A2',
         'B1': '=MAX({DATA}2:2)',                   # whole row of the other sheet
     }
+    calc['C3'] = '={OB}A2+1'                           # a sheet whose title needs escaping (apostrophe) and holds a %
     if cross:
         # cross-workbook references: book2 is loaded on demand when only book1 is given
         calc['C1'] = '=SUM({B2}A1:A2)+{B2}B2'
@@ -54,12 +60,12 @@ def spec(a1, a2, whole='row', cross=True):
         # and the second rectangle overlaps the array formula's spill without its anchor
         d2['C1'] = '=SUM({B1D}A5:J5)' if whole != 'col' else '=SUM({B1D}A1:A3)'
         d2['C2'] = '=SUM({B1D}B2:C2)'
-    return {B1: {'DATA': data, 'CALC': calc}, B2: {'DATA': d2}}, {B1: {'RATE': 'DATA!$A$3'}}
+    return {B1: {'DATA': data, 'CALC': calc, ODD: {'A1': a2, 'A2': '=@A1*2'}}, B2: {'DATA': d2}}, {B1: {'RATE': 'DATA!$A$3'}}
 
 
 def _file_formula(f):
     return f.replace('@', '').replace('{DATA}', 'DATA!').replace('{CALC}', 'CALC!').replace('{RATE}', 'RATE') \
-        .replace('{B2}', "'[%s]DATA'!" % B2).replace('{B1D}', "'[%s]DATA'!" % B1)
+        .replace('{B2}', "'[%s]DATA'!" % B2).replace('{B1D}', "'[%s]DATA'!" % B1).replace('{OB}', "'%s'!" % q(ODD))
 
 
 def write_files(a1, a2, whole='row', cross=True):
@@ -89,11 +95,12 @@ def as_dict(a1, a2, whole='row', cross=True):
     out = {}
     for book, sheets in books.items():
         for title, cells in sheets.items():
-            own = "'[%s]%s'!" % (book, title)
+            own = "'[%s]%s'!" % (book, q(title))
             for ref, v in cells.items():
                 if isinstance(v, str) and v.startswith('='):
                     v = v.replace('@', own).replace('{DATA}', "'[%s]DATA'!" % B1).replace('{CALC}', "'[%s]CALC'!" % B1) \
-                        .replace('{RATE}', "'[%s]'!RATE" % B1).replace('{B2}', "'[%s]DATA'!" % B2).replace('{B1D}', "'[%s]DATA'!" % B1)
+                        .replace('{RATE}', "'[%s]'!RATE" % B1).replace('{B2}', "'[%s]DATA'!" % B2).replace('{B1D}', "'[%s]DATA'!" % B1) \
+                        .replace('{OB}', "'[%s]%s'!" % (B1, q(ODD)))
                 out[own + ref] = v
         for n, target in names.get(book, {}).items():
             sheet, ref = target.split('!')
@@ -103,5 +110,5 @@ def as_dict(a1, a2, whole='row', cross=True):
 
 def formula_keys(a1=0, a2=0, whole='row', cross=True):
     books, _ = spec(a1, a2, whole, cross)
-    return ["'[%s]%s'!%s" % (b, t, r) for b, sh_ in books.items() for t, cells in sh_.items() for r, v in cells.items()
+    return ["'[%s]%s'!%s" % (b, q(t), r) for b, sh_ in books.items() for t, cells in sh_.items() for r, v in cells.items()
             if isinstance(v, str) and v.startswith('=')]
